@@ -90,6 +90,6 @@ INPUT_CLASSES = {
     'p_boundary': lambda f: any(x in (0.0, 1.0) for x in _fl(f)),
     'gev_unbounded': lambda f: len(_fl(f)) >= 3 and _fl(f)[2] <= -1.0,
     'pareto_tiny_shape': lambda f: f.get('site', '').startswith('Pareto') and len(_fl(f)) >= 1 and 0 < _fl(f)[0] < 1.0 / 700.0,
-    'invgaussian_tiny_lambda': lambda f: f.get('site', '').startswith('InvGaussian') and len(_fl(f)) >= 2 and _fl(f)[0] > 0 and _fl(f)[1] / _fl(f)[0] < 1e-5,
+    'invgaussian_tiny_lambda': lambda f: f.get('site', '').startswith('InvGaussian') and len(_fl(f)) >= 2 and _fl(f)[0] > 0 and _fl(f)[1] / _fl(f)[0] < 1e-3,     # relative error ~ eps (mu/lambda)^2
     'gev_tiny_shape': lambda f: len(_fl(f)) >= 3 and abs(_fl(f)[2]) < 1e-6 and _fl(f)[2] != 0.0,
 }
